@@ -200,8 +200,18 @@ struct Defs {
 }
 
 fn build(s: &Schema) -> Defs {
-    let enums: Vec<EnumDef> = s
-        .enums
+    let n_enums = s.enums.len();
+    let structs = s
+        .structs
+        .iter()
+        .enumerate()
+        .map(|(i, fields)| fields.iter().map(|t| resolve(t, i, n_enums, true)).collect())
+        .collect();
+    build_defs(&s.enums, structs)
+}
+
+fn build_defs(enum_vals: &[Vec<i64>], struct_fields: Vec<Vec<TypeKind>>) -> Defs {
+    let enums: Vec<EnumDef> = enum_vals
         .iter()
         .enumerate()
         .map(|(j, vals)| EnumDef {
@@ -209,17 +219,12 @@ fn build(s: &Schema) -> Defs {
             variants: vals.iter().enumerate().map(|(k, v)| (ident(format!("V{k}")), *v)).collect(),
         })
         .collect();
-    let structs: Vec<StructDef> = s
-        .structs
-        .iter()
+    let structs: Vec<StructDef> = struct_fields
+        .into_iter()
         .enumerate()
         .map(|(i, fields)| StructDef {
             name: sname(i),
-            items: fields
-                .iter()
-                .enumerate()
-                .map(|(k, t)| Field { name: fname(k), ty: resolve(t, i, enums.len(), true) })
-                .collect(),
+            items: fields.into_iter().enumerate().map(|(k, ty)| Field { name: fname(k), ty }).collect(),
         })
         .collect();
     let mut machine = Machine::new(Vec::new());
@@ -246,9 +251,38 @@ impl Defs {
 
 // ---- conforming values from entropy -------------------------------------------------------------------
 
+/// How optional values are chosen between None and Some (wide part; `Entropy` is what the small parts use).
+#[derive(Clone, Copy, Debug, Serialize, Deserialize, PartialEq)]
+enum Bias {
+    /// one entropy byte per optional: None with probability 1/3 (None once the entropy is used up)
+    Entropy,
+    /// None except for about 1 in 16 (entropy byte)
+    MostlyNone,
+    /// Some except for about 1 in 16 (entropy byte)
+    MostlySome,
+    AllNone,
+    AllSome,
+    /// the n-th optional met (counting from `phase`) is the odd one out when n % p == 0: `some` = true: that one is
+    /// Some and the others None; false: that one is None and the others Some. p = 2 alternates.
+    Period { p: u8, phase: u8, some: bool },
+}
+
 struct Cur<'a> {
     d: &'a [u8],
     i: usize,
+    bias: Bias,
+    /// optionals met so far
+    nopt: usize,
+    /// > 0: some texts / byte strings get this many extra bytes, while `long_left` lasts
+    long_text: usize,
+    long_bytes: usize,
+    long_left: usize,
+}
+
+impl<'a> Cur<'a> {
+    fn new(d: &'a [u8]) -> Self {
+        Cur { d, i: 0, bias: Bias::Entropy, nopt: 0, long_text: 0, long_bytes: 0, long_left: 0 }
+    }
 }
 
 impl Cur<'_> {
@@ -256,6 +290,21 @@ impl Cur<'_> {
         let v = self.d.get(self.i).copied().unwrap_or(0);
         self.i += 1;
         v
+    }
+    fn want_none(&mut self) -> bool {
+        let n = self.nopt;
+        self.nopt += 1;
+        match self.bias {
+            Bias::Entropy => self.u8() % 3 == 0,
+            Bias::MostlyNone => self.u8() % 16 != 1,
+            Bias::MostlySome => self.u8() % 16 == 1,
+            Bias::AllNone => true,
+            Bias::AllSome => false,
+            Bias::Period { p, phase, some } => {
+                let odd = (n + phase as usize) % (p.max(1) as usize) == 0;
+                odd != some
+            }
+        }
     }
     fn i64(&mut self) -> i64 {
         match self.u8() % 6 {
@@ -288,11 +337,23 @@ impl Cur<'_> {
         if self.u8() % 23 == 0 {
             s.push_str(&"x".repeat(130));
         }
+        if self.long_text > 0 && self.long_left >= self.long_text && self.u8() % 3 == 0 {
+            // long text (up to 3-byte length prefixes) of one repeated, possibly multi-byte, character
+            self.long_left -= self.long_text;
+            let unit = ALPHA[(self.u8() as usize) % ALPHA.len()];
+            s.push_str(&unit.repeat(self.long_text.div_ceil(unit.len())));
+        }
         s
     }
     fn bytes(&mut self) -> Vec<u8> {
         let n = (self.u8() % 12) as usize;
-        (0..n).map(|_| self.u8()).collect()
+        let mut v: Vec<u8> = (0..n).map(|_| self.u8()).collect();
+        if self.long_bytes > 0 && self.long_left >= self.long_bytes && self.u8() % 3 == 0 {
+            self.long_left -= self.long_bytes;
+            let (a, step) = (self.u8(), self.u8());
+            v.extend((0..self.long_bytes).map(|k| a.wrapping_add((k as u8).wrapping_mul(step))));
+        }
+        v
     }
 }
 
@@ -322,7 +383,7 @@ fn gen_value(d: &Defs, t: &TypeKind, c: &mut Cur<'_>) -> Value {
             Value::Enum(n.clone(), *v)
         }
         TypeKind::Optional(i) => {
-            if !inhabited(i) || c.u8() % 3 == 0 {
+            if !inhabited(i) || c.want_none() {
                 Value::Option(None)
             } else {
                 Value::Option(Some(Box::new(gen_value(d, i, c))))
@@ -487,6 +548,415 @@ fn feature_labels(t: &TypeKind, d: &Defs, depth: usize, info: &mut CaseInfo) {
     }
 }
 
+
+// ---- wide / deep schemas ------------------------------------------------------------------------------------
+//
+// Plain-data description kept flat (a wrapper list instead of nested boxes) so that 70 levels of nesting stay far
+// below serde_json's recursion limit in the replay file and shrink well.
+
+#[derive(Clone, Debug, Serialize, Deserialize)]
+enum Leaf {
+    Unit,
+    String,
+    Bytes,
+    Int,
+    Bool,
+    Id,
+    Enum(u16),
+    /// a struct with a lower index (Int in struct 0 or when the value budget of the owner is used up)
+    Sub(u16),
+    Never,
+}
+
+#[derive(Clone, Debug, Serialize, Deserialize)]
+struct WField {
+    leaf: Leaf,
+    /// wrappers, innermost first. w < 128: option[t]; 128..192: result[t, other]; 192..: result[other, t];
+    /// other = int / string / never / unit by w % 4
+    wraps: Vec<u8>,
+}
+
+#[derive(Clone, Debug, Serialize, Deserialize)]
+struct WideCase {
+    enums: Vec<Vec<i64>>,
+    /// struct i may refer to structs below i; the last one is wide
+    structs: Vec<Vec<WField>>,
+    /// this many further structs, each holding the previous last struct through `links[level % len]`
+    /// (0 plain field, 1 result[S, never], 2 result[never, S], 3 option[S]) between the `chain_extra` fields
+    chain: u8,
+    links: Vec<u8>,
+    chain_extra: Vec<WField>,
+    /// Some: one more struct on top: these fields and a plain field holding the previous last struct
+    /// (first or last according to `top_first`)
+    top: Option<Vec<WField>>,
+    top_first: bool,
+    bias: Bias,
+    long_text: u32,
+    long_bytes: u32,
+    data: Vec<u8>,
+}
+
+#[derive(Clone, Debug, Serialize, Deserialize)]
+struct WideByteCase {
+    case: WideCase,
+    edits: Vec<(u16, u8)>,
+}
+
+/// Upper bound for the number of values below one struct of `structs` (nested structs counted each time they occur);
+/// fields that would exceed it lose their nested struct / all but one wrapper. Keeps the cost of one case bounded.
+const VALUE_BUDGET: usize = 700;
+const TOP_BUDGET: usize = 300;
+
+fn wleaf(sub_w: u32) -> impl Strategy<Value = Leaf> {
+    prop_oneof![
+        1 => Just(Leaf::Unit),
+        3 => Just(Leaf::String),
+        2 => Just(Leaf::Bytes),
+        4 => Just(Leaf::Int),
+        2 => Just(Leaf::Bool),
+        2 => Just(Leaf::Id),
+        2 => any::<u16>().prop_map(Leaf::Enum),
+        sub_w => any::<u16>().prop_map(Leaf::Sub),
+        1 => Just(Leaf::Never),
+    ]
+}
+
+/// profile 0: almost every field is option[leaf]; 1: mixed, a few deeply wrapped; 2: mostly results
+fn wfield(profile: u8, sub_w: u32) -> BoxedStrategy<WField> {
+    let opt = || 0u8..128;
+    let wraps: BoxedStrategy<Vec<u8>> = match profile {
+        0 => prop_oneof![
+            1 => Just(Vec::new()),
+            12 => opt().prop_map(|w| vec![w]),
+            1 => prop::collection::vec(prop_oneof![4 => opt(), 1 => any::<u8>()], 2..4),
+        ]
+        .boxed(),
+        1 => prop_oneof![
+            6 => Just(Vec::new()),
+            8 => any::<u8>().prop_map(|w| vec![w]),
+            4 => prop::collection::vec(any::<u8>(), 2..5),
+            1 => prop::collection::vec(prop_oneof![3 => opt(), 1 => any::<u8>()], 10..70),
+        ]
+        .boxed(),
+        _ => prop_oneof![
+            1 => Just(Vec::new()),
+            8 => (128u8..=255).prop_map(|w| vec![w]),
+            3 => prop::collection::vec(any::<u8>(), 2..4),
+        ]
+        .boxed(),
+    };
+    (wleaf(sub_w), wraps).prop_map(|(leaf, wraps)| WField { leaf, wraps }).boxed()
+}
+
+fn wstruct_wide() -> impl Strategy<Value = Vec<WField>> {
+    (0u8..3, prop_oneof![4 => 24usize..66, 4 => 66usize..130, 2 => 130usize..320]).prop_flat_map(|(profile, n)| {
+        // about 1 field in 20 is a nested struct (the value budget cuts what is too much)
+        let _ = n;
+        prop::collection::vec(wfield(profile, 1), n..=n)
+    })
+}
+
+fn wstruct_narrow() -> impl Strategy<Value = Vec<WField>> {
+    (0u8..3).prop_flat_map(|profile| prop::collection::vec(wfield(profile, 6), 0..7))
+}
+
+fn bias() -> impl Strategy<Value = Bias> {
+    prop_oneof![
+        3 => Just(Bias::Entropy),
+        3 => Just(Bias::MostlyNone),
+        3 => Just(Bias::MostlySome),
+        3 => Just(Bias::AllNone),
+        2 => Just(Bias::AllSome),
+        4 => (prop_oneof![3 => Just(2u8), 2 => 3u8..9, 1 => 9u8..=255], any::<u8>(), any::<bool>())
+            .prop_map(|(p, phase, some)| Bias::Period { p, phase, some }),
+    ]
+}
+
+fn long_len() -> impl Strategy<Value = u32> {
+    prop_oneof![
+        6 => Just(0u32),
+        2 => 100u32..400,
+        1 => 16_000u32..17_000,
+        1 => 400u32..70_000,
+    ]
+}
+
+fn wide_case() -> impl Strategy<Value = WideCase> {
+    let enums = prop::collection::vec(prop::collection::vec(interesting_i64(), 1..5), 0..3);
+    let structs = (
+        prop::collection::vec(prop_oneof![2 => wstruct_narrow().boxed(), 1 => wstruct_wide().boxed()], 0..3),
+        wstruct_wide(),
+    )
+        .prop_map(|(mut lo, w)| {
+            lo.push(w);
+            lo
+        });
+    let chain = (
+        prop_oneof![4 => Just(0u8), 1 => 1u8..10, 4 => 10u8..=70],
+        prop::collection::vec(prop_oneof![3 => Just(0u8), 1 => Just(1u8), 1 => Just(2u8), 1 => Just(3u8)], 1..4),
+        prop::collection::vec(wfield(0, 0), 0..3),
+        prop::option::weighted(0.3, prop_oneof![1 => wstruct_narrow().boxed(), 2 => wstruct_wide().boxed()]),
+        any::<bool>(),
+    );
+    let data = prop_oneof![
+        2 => prop::collection::vec(any::<u8>(), 0..24),
+        3 => prop::collection::vec(any::<u8>(), 24..400),
+        1 => prop::collection::vec(any::<u8>(), 400..2500),
+    ];
+    (enums, structs, chain, bias(), long_len(), long_len(), data).prop_map(
+        |(mut enums, structs, (chain, links, chain_extra, top, top_first), bias, long_text, long_bytes, data)| {
+            for e in &mut enums {
+                let mut seen = Vec::new();
+                e.retain(|v| {
+                    if seen.contains(v) {
+                        false
+                    } else {
+                        seen.push(*v);
+                        true
+                    }
+                });
+            }
+            WideCase { enums, structs, chain, links, chain_extra, top, top_first, bias, long_text, long_bytes, data }
+        },
+    )
+}
+
+fn wide_byte_case() -> impl Strategy<Value = WideByteCase> {
+    (wide_case(), prop::collection::vec((any::<u16>(), any::<u8>()), 1..4)).prop_map(|(case, edits)| WideByteCase { case, edits })
+}
+
+fn wrap_kind(mut t: TypeKind, wraps: &[u8]) -> TypeKind {
+    for w in wraps {
+        let other = || match w % 4 {
+            0 => TypeKind::Int,
+            1 => TypeKind::String,
+            2 => TypeKind::Never,
+            _ => TypeKind::Unit,
+        };
+        t = match w {
+            0..128 => TypeKind::Optional(Box::new(t)),
+            _ => {
+                let (mut ok, err) = if *w < 192 { (t, other()) } else { (other(), t) };
+                if !inhabited(&ok) && !inhabited(&err) {
+                    ok = TypeKind::Unit;
+                }
+                TypeKind::Result(Box::new(ResultTypeKind { ok, err }))
+            }
+        };
+    }
+    t
+}
+
+/// Resolves one described field of struct `owner`. `sizes`: value counts of the structs below; `acc`: values of the
+/// owner so far; `budget`: see VALUE_BUDGET.
+fn wresolve(f: &WField, owner: usize, n_enums: usize, sizes: &[usize], acc: &mut usize, budget: usize) -> TypeKind {
+    let mut wraps: &[u8] = &f.wraps;
+    let mut sub = match &f.leaf {
+        Leaf::Sub(k) if owner > 0 => Some(idx(*k, owner)),
+        _ => None,
+    };
+    let cost = |wraps: &[u8], sub: Option<usize>| 1 + wraps.len() + sub.map_or(0, |j| sizes[j]);
+    if *acc + cost(wraps, sub) > budget {
+        sub = None;
+        wraps = &wraps[..wraps.len().min(1)];
+    }
+    *acc += cost(wraps, sub);
+    let leaf = match &f.leaf {
+        Leaf::Unit => TypeKind::Unit,
+        Leaf::String => TypeKind::String,
+        Leaf::Bytes => TypeKind::Bytes,
+        Leaf::Int => TypeKind::Int,
+        Leaf::Bool => TypeKind::Bool,
+        Leaf::Id => TypeKind::Id,
+        Leaf::Enum(k) => {
+            if n_enums == 0 {
+                TypeKind::Bool
+            } else {
+                TypeKind::Enum(ename(idx(*k, n_enums)))
+            }
+        }
+        Leaf::Sub(_) => match sub {
+            Some(j) => TypeKind::Struct(sname(j)),
+            None => TypeKind::Int,
+        },
+        // `never` only directly below option / result
+        Leaf::Never => {
+            if wraps.is_empty() {
+                TypeKind::Unit
+            } else {
+                TypeKind::Never
+            }
+        }
+    };
+    wrap_kind(leaf, wraps)
+}
+
+fn expand(c: &WideCase) -> Defs {
+    let n_enums = c.enums.len();
+    let mut out: Vec<Vec<TypeKind>> = Vec::new();
+    let mut sizes: Vec<usize> = Vec::new();
+    for (i, fields) in c.structs.iter().enumerate() {
+        let mut acc = 0;
+        out.push(fields.iter().map(|f| wresolve(f, i, n_enums, &sizes, &mut acc, VALUE_BUDGET)).collect());
+        sizes.push(acc);
+    }
+    let n_base = out.len();
+    for level in 0..c.chain as usize {
+        let prev = out.len() - 1;
+        let inner = TypeKind::Struct(sname(prev));
+        let link = match c.links.get(level % c.links.len().max(1)).copied().unwrap_or(0) {
+            1 => TypeKind::Result(Box::new(ResultTypeKind { ok: inner, err: TypeKind::Never })),
+            2 => TypeKind::Result(Box::new(ResultTypeKind { ok: TypeKind::Never, err: inner })),
+            3 => TypeKind::Optional(Box::new(inner)),
+            _ => inner,
+        };
+        let mut acc = sizes[prev] + 2;
+        let mut fields: Vec<TypeKind> =
+            c.chain_extra.iter().map(|f| wresolve(f, 0, n_enums, &sizes, &mut acc, usize::MAX)).collect();
+        // the link sits before, between or after the extra fields, depending on the level
+        fields.insert(level % (fields.len() + 1), link);
+        out.push(fields);
+        sizes.push(acc);
+    }
+    if let Some(top) = &c.top {
+        let prev = out.len() - 1;
+        let mut acc = 0;
+        // nested structs of the top fields are among the described (base) structs
+        let mut fields: Vec<TypeKind> =
+            top.iter().map(|f| wresolve(f, n_base, n_enums, &sizes, &mut acc, TOP_BUDGET)).collect();
+        let link = TypeKind::Struct(sname(prev));
+        if c.top_first {
+            fields.push(link);
+        } else {
+            fields.insert(0, link);
+        }
+        out.push(fields);
+    }
+    build_defs(&c.enums, out)
+}
+
+#[derive(Default)]
+struct Stats {
+    values: usize,
+    none: usize,
+    some: usize,
+    results: usize,
+    structs: usize,
+    max_depth: usize,
+    max_len: usize,
+}
+
+fn stats(v: &Value, depth: usize, st: &mut Stats) {
+    st.values += 1;
+    st.max_depth = st.max_depth.max(depth);
+    match v {
+        Value::Struct(s) => {
+            st.structs += 1;
+            for f in s.fields.values() {
+                stats(f, depth + 1, st);
+            }
+        }
+        Value::Option(None) => st.none += 1,
+        Value::Option(Some(x)) => {
+            st.some += 1;
+            stats(x, depth + 1, st);
+        }
+        Value::Result(Ok(x) | Err(x)) => {
+            st.results += 1;
+            stats(x, depth + 1, st);
+        }
+        Value::String(s) => st.max_len = st.max_len.max(s.as_str().len()),
+        Value::Bytes(b) => st.max_len = st.max_len.max(b.len()),
+        _ => {}
+    }
+}
+
+fn wide_cur(c: &WideCase) -> Cur<'_> {
+    let (lt, lb) = (c.long_text as usize, c.long_bytes as usize);
+    Cur { d: &c.data, i: 0, bias: c.bias, nopt: 0, long_text: lt, long_bytes: lb, long_left: 3 * lt.max(lb) }
+}
+
+fn bucket(n: usize) -> &'static str {
+    match n {
+        0 => "0",
+        1..=9 => "1_9",
+        10..=23 => "10_23",
+        24..=63 => "24_63",
+        64..=127 => "64_127",
+        128..=299 => "128_299",
+        _ => "300_plus",
+    }
+}
+
+fn wide_labels(d: &Defs, c: &WideCase, info: &mut CaseInfo) {
+    let root = d.root().clone();
+    let value = gen_struct(d, &root, &mut wide_cur(c));
+    let mut st = Stats::default();
+    stats(&Value::Struct(value), 0, &mut st);
+    // the rule of this part: a wide or deep value
+    if st.values >= 24 || st.max_depth >= 10 {
+        info.nontrivial();
+    }
+    info.label(format!("values_{}", bucket(st.values)));
+    info.label(format!("none_{}", bucket(st.none)));
+    info.label(format!("some_{}", bucket(st.some)));
+    info.label(format!("results_{}", bucket(st.results)));
+    info.label(format!("structs_{}", bucket(st.structs)));
+    info.label(format!("depth_{}", bucket(st.max_depth)));
+    info.label(format!("root_fields_{}", bucket(root.items.len())));
+    info.label(match st.max_len {
+        0..=127 => "maxlen_0_127",
+        128..=16383 => "maxlen_128_16383",
+        _ => "maxlen_16384_plus",
+    });
+    info.label(match c.bias {
+        Bias::Entropy => "bias_entropy",
+        Bias::MostlyNone => "bias_mostly_none",
+        Bias::MostlySome => "bias_mostly_some",
+        Bias::AllNone => "bias_all_none",
+        Bias::AllSome => "bias_all_some",
+        Bias::Period { p: 2, .. } => "bias_alternating",
+        Bias::Period { .. } => "bias_period",
+    });
+}
+
+/// Failure texts of wide cases would be megabytes; the case itself is in the replay file.
+fn shorten(r: CheckResult) -> CheckResult {
+    r.map_err(|mut f| {
+        if f.detail.len() > 3000 {
+            let cut: String = f.detail.chars().take(3000).collect();
+            f.detail = format!("{cut}... [{} bytes]", f.detail.len());
+        }
+        f
+    })
+}
+
+fn check_wide(c: &WideCase, info: &mut CaseInfo) -> CheckResult {
+    let d = expand(c);
+    wide_labels(&d, c, info);
+    shorten(check_value(&d, wide_cur(c), info, true))
+}
+
+fn check_wide_bytes(c: &WideByteCase, info: &mut CaseInfo) -> CheckResult {
+    let d = expand(&c.case);
+    let root = d.root().clone();
+    let value = gen_struct(&d, &root, &mut wide_cur(&c.case));
+    let mut b = d
+        .machine
+        .serialize_struct(&value)
+        .map_err(|e| Failure::new("serialize failed for a conforming value", format!("{e}")))?;
+    for (p, v) in &c.edits {
+        if b.is_empty() {
+            b.push(*v);
+        } else {
+            let i = idx(*p, b.len());
+            b[i] = *v;
+        }
+    }
+    info.label(format!("input_len_{}", bucket(b.len())));
+    shorten(check_input(&d, &root, &b, info))
+}
+
 // ---- oracles ---------------------------------------------------------------------------------------------
 
 fn must_reject(d: &Defs, root: &Identifier, bytes: &[u8], sig: &'static str, what: String) -> CheckResult {
@@ -497,16 +967,34 @@ fn must_reject(d: &Defs, root: &Identifier, bytes: &[u8], sig: &'static str, wha
 
 fn check(c: &Case, info: &mut CaseInfo) -> CheckResult {
     let d = build(&c.schema);
+    check_value(&d, Cur::new(&c.data), info, false)
+}
+
+/// Positions (sorted, distinct, all < n) at which a big input is cut / marks are picked: everything when n <= all_upto,
+/// else the first and last `edge` plus `mid` evenly spread ones shifted by `off`.
+fn sample_positions(n: usize, all_upto: usize, edge: usize, mid: usize, off: usize) -> Vec<usize> {
+    if n <= all_upto {
+        return (0..n).collect();
+    }
+    let mut v: Vec<usize> = (0..edge.min(n)).chain(n.saturating_sub(edge)..n).collect();
+    let step = (n / mid.max(1)).max(1);
+    v.extend((0..mid).map(|k| k * step + off % step).filter(|p| *p < n));
+    v.sort_unstable();
+    v.dedup();
+    v
+}
+
+/// The oracle of the round-trip parts. `wide`: big encodings get a sample of the cut positions / marks instead of all.
+fn check_value(d: &Defs, mut cur: Cur<'_>, info: &mut CaseInfo, wide: bool) -> CheckResult {
     let root = d.root().clone();
-    let mut cur = Cur { d: &c.data, i: 0 };
-    let value = gen_struct(&d, &root, &mut cur);
+    let value = gen_struct(d, &root, &mut cur);
     let rt = TypeKind::Struct(root.name.clone());
-    ensure!(conforms(&d, &Value::Struct(value.clone()), &rt), "harness: generated value does not conform", "{value:?}");
+    ensure!(conforms(d, &Value::Struct(value.clone()), &rt), "harness: generated value does not conform", "{value:?}");
 
     // reference encoding
     let mut want = Vec::new();
     let mut marks = Vec::new();
-    ref_encode(&d, &Value::Struct(value.clone()), &rt, &mut want, &mut marks)
+    ref_encode(d, &Value::Struct(value.clone()), &rt, &mut want, &mut marks)
         .map_err(|e| Failure::new("harness: reference encoder refused a conforming value", e))?;
 
     let got = d
@@ -526,35 +1014,53 @@ fn check(c: &Case, info: &mut CaseInfo) -> CheckResult {
         .map_err(|e| Failure::new("deserialize failed on serialize output", format!("{e}: {value:?} bytes={}", vcommon::hex(&got))))?;
     ensure!(back == value, "round trip changed the value", "before={value:?}\nafter={back:?}");
 
-    for f in &root.items {
-        feature_labels(&f.ty, &d, 0, info);
+    if !wide {
+        for f in &root.items {
+            feature_labels(&f.ty, d, 0, info);
+        }
+
+        if !want.is_empty() {
+            info.nontrivial();
+        }
+        info.label(match want.len() {
+            0 => "len_0",
+            1..=15 => "len_1_15",
+            16..=127 => "len_16_127",
+            _ => "len_128_plus",
+        });
     }
-    if !want.is_empty() {
-        info.nontrivial();
-    }
-    info.label(match want.len() {
-        0 => "len_0",
-        1..=15 => "len_1_15",
-        16..=127 => "len_16_127",
-        _ => "len_128_plus",
-    });
 
     // unknown struct name
     let r = d.machine.deserialize_struct(ident("NoSuchStruct".into()), &got);
     ensure!(r.is_err(), "deserialize accepted an undefined struct name", "{r:?}");
 
-    // truncation at every length
-    for n in 0..want.len() {
-        must_reject(&d, &root.name, &want[..n], "truncated input accepted", format!("first {n} of {} bytes", want.len()))?;
+    // truncation at every length (wide part, encodings over 512 bytes: the first/last 128 lengths, 128 spread ones
+    // and the byte before/at/after every picked mark)
+    let cut_off = if wide && want.len() > 512 { cur.u8() as usize } else { 0 };
+    for n in sample_positions(want.len(), if wide { 512 } else { usize::MAX }, 128, 128, cut_off) {
+        must_reject(d, &root.name, &want[..n], "truncated input accepted", format!("first {n} of {} bytes", want.len()))?;
     }
     // trailing data
     for extra in [vec![cur.u8()], vec![0u8], vec![cur.u8(), cur.u8()]] {
         let mut b = want.clone();
         b.extend(&extra);
-        must_reject(&d, &root.name, &b, "trailing data accepted", format!("{} extra byte(s)", extra.len()))?;
+        must_reject(d, &root.name, &b, "trailing data accepted", format!("{} extra byte(s)", extra.len()))?;
     }
-    // targeted corruptions
-    for m in &marks {
+    // targeted corruptions (wide part, over 160 marks: the first/last 40 and 80 spread ones)
+    let mark_off = if wide && marks.len() > 160 { cur.u8() as usize } else { 0 };
+    for mi in sample_positions(marks.len(), if wide { 160 } else { usize::MAX }, 40, 80, mark_off) {
+        let m = &marks[mi];
+        if wide && want.len() > 512 {
+            let at = match m {
+                Mark::Tag { pos } | Mark::Id { pos } | Mark::EnumVal { pos, .. } => *pos,
+                Mark::Str { pos_len, .. } => *pos_len,
+            };
+            for n in [at.saturating_sub(1), at, at + 1] {
+                if n < want.len() {
+                    must_reject(d, &root.name, &want[..n], "truncated input accepted", format!("first {n} of {} bytes", want.len()))?;
+                }
+            }
+        }
         match m {
             Mark::Tag { pos } => {
                 info.label("corrupt_tag");
@@ -562,7 +1068,7 @@ fn check(c: &Case, info: &mut CaseInfo) -> CheckResult {
                 for t in [2u8, 255, pick] {
                     let mut b = want.clone();
                     b[*pos] = t;
-                    must_reject(&d, &root.name, &b, "invalid option/result tag accepted", format!("tag {t} at offset {pos}"))?;
+                    must_reject(d, &root.name, &b, "invalid option/result tag accepted", format!("tag {t} at offset {pos}"))?;
                 }
             }
             Mark::EnumVal { pos, len, def } => {
@@ -576,7 +1082,7 @@ fn check(c: &Case, info: &mut CaseInfo) -> CheckResult {
                     let mut b = want[..*pos].to_vec();
                     varint(zigzag(x), &mut b);
                     b.extend_from_slice(&want[pos + len..]);
-                    must_reject(&d, &root.name, &b, "enum value outside the definition accepted", format!("value {x} for enum {def} at offset {pos}"))?;
+                    must_reject(d, &root.name, &b, "enum value outside the definition accepted", format!("value {x} for enum {def} at offset {pos}"))?;
                 }
             }
             Mark::Str { pos_len, pos, len } => {
@@ -586,14 +1092,14 @@ fn check(c: &Case, info: &mut CaseInfo) -> CheckResult {
                     let mut b = want.clone();
                     b[i] = 0;
                     // overwriting one byte of a multi-byte character with NUL leaves invalid UTF-8 or a NUL: both refused
-                    must_reject(&d, &root.name, &b, "text with NUL accepted", format!("NUL at offset {i}"))?;
+                    must_reject(d, &root.name, &b, "text with NUL accepted", format!("NUL at offset {i}"))?;
                     for bad in [0xffu8, 0xc0, 0xfe] {
                         let mut b = want.clone();
                         b[pos + len - 1] = bad;
-                        must_reject(&d, &root.name, &b, "text with invalid UTF-8 accepted", format!("byte {bad:#x} at offset {}", pos + len - 1))?;
+                        must_reject(d, &root.name, &b, "text with invalid UTF-8 accepted", format!("byte {bad:#x} at offset {}", pos + len - 1))?;
                     }
                 }
-                if *len < 120 {
+                if *len < 120 || wide {
                     // grow the string by one hostile byte
                     for bad in [0u8, 0xff] {
                         let mut b = want[..*pos_len].to_vec();
@@ -602,7 +1108,7 @@ fn check(c: &Case, info: &mut CaseInfo) -> CheckResult {
                         b.push(bad);
                         b.extend_from_slice(&want[pos + len..]);
                         let sig = if bad == 0 { "text with NUL accepted" } else { "text with invalid UTF-8 accepted" };
-                        must_reject(&d, &root.name, &b, sig, format!("appended byte {bad:#x} to text at offset {pos}"))?;
+                        must_reject(d, &root.name, &b, sig, format!("appended byte {bad:#x} to text at offset {pos}"))?;
                     }
                 }
             }
@@ -616,13 +1122,13 @@ fn check(c: &Case, info: &mut CaseInfo) -> CheckResult {
                     // only the length byte changes
                     let mut b = want.clone();
                     b[*pos] = l;
-                    must_reject(&d, &root.name, &b, "id of the wrong length accepted", format!("length byte {l} at offset {pos}"))?;
+                    must_reject(d, &root.name, &b, "id of the wrong length accepted", format!("length byte {l} at offset {pos}"))?;
                     // length byte and payload size change together
                     let mut b = want[..*pos].to_vec();
                     b.push(l);
                     b.extend(std::iter::repeat_n(0xabu8, l as usize));
                     b.extend_from_slice(&want[pos + 33..]);
-                    must_reject(&d, &root.name, &b, "id of the wrong length accepted", format!("{l}-byte id at offset {pos}"))?;
+                    must_reject(d, &root.name, &b, "id of the wrong length accepted", format!("{l}-byte id at offset {pos}"))?;
                 }
             }
         }
@@ -640,7 +1146,7 @@ fn check_bytes(c: &ByteCase, info: &mut CaseInfo) -> CheckResult {
         }
         None => {
             info.label("edited_valid_encoding");
-            let mut cur = Cur { d: &c.data, i: 0 };
+            let mut cur = Cur::new(&c.data);
             let value = gen_struct(&d, &root, &mut cur);
             let mut b = d
                 .machine
@@ -657,17 +1163,22 @@ fn check_bytes(c: &ByteCase, info: &mut CaseInfo) -> CheckResult {
             b
         }
     };
-    // a panic here is reported by the driver as a violation
-    match d.machine.deserialize_struct(root.name.clone(), &input) {
+    check_input(&d, &root, &input, info)
+}
+
+/// Arbitrary input: no panic (a panic is reported by the driver as a violation); what is accepted matches the schema
+/// and survives serialize / deserialize.
+fn check_input(d: &Defs, root: &StructDef, input: &[u8], info: &mut CaseInfo) -> CheckResult {
+    match d.machine.deserialize_struct(root.name.clone(), input) {
         Err(_) => info.label("rejected"),
         Ok(s) => {
             info.label("accepted");
             info.nontrivial();
             ensure!(
-                conforms(&d, &Value::Struct(s.clone()), &TypeKind::Struct(root.name.clone())),
+                conforms(d, &Value::Struct(s.clone()), &TypeKind::Struct(root.name.clone())),
                 "deserialize produced a value that does not match the schema",
                 "input={} value={s:?}",
-                vcommon::hex(&input)
+                vcommon::hex(input)
             );
             let again = d
                 .machine
@@ -689,7 +1200,7 @@ pub fn run(ctx: &Ctx) -> ! {
     rep.assume("the reference encoder follows the postcard wire specification (LEB128 varints, zigzag for i64, length-prefixed str/bytes, 1-byte bool/option/result discriminants) and the module's documented layout (fields in definition order, id = 0x20 + 32 bytes)");
     rep.explore(
         "roundtrip_and_corruptions",
-        "acyclic schemas of 1..4 structs x 0..5 fields over unit/string/bytes/int/bool/id/struct/enum/option/result/never \
+        "small schemas: acyclic schemas of 1..4 structs x 0..5 fields over unit/string/bytes/int/bool/id/struct/enum/option/result/never \
          (nesting <= 3), enums with 1..4 arbitrary distinct i64 values; a conforming value derived from entropy (boundary \
          ints, multi-byte text, 130+ byte text, zero/ff ids). Checked: serialize == independent postcard reference encoding; \
          deserialize(serialize(v)) == v; every strict prefix rejected; 1-2 trailing bytes rejected; every option/result tag \
@@ -701,6 +1212,22 @@ pub fn run(ctx: &Ctx) -> ! {
         check,
     );
     rep.explore(
+        "wide_deep_roundtrip_and_corruptions",
+        "1..3 described structs, the last one wide, the others narrow (0..6 fields) or wide (24..319 fields; per struct one of three field profiles: \
+         nearly all option[leaf] / mixed with a few fields wrapped 10..69 levels deep in option/result / mostly results), \
+         lower structs nested in higher ones (value count per struct capped at 700), optionally wrapped in a chain of \
+         0..70 further struct levels (linked as plain field, result[S,never], result[never,S] or option[S], with up to 2 \
+         optional fields around the link) and optionally one more wide or narrow struct on top. Values: option bias \
+         entropy / mostly None / mostly Some / all None / all Some / every p-th odd one out (p=2 alternating), optionally \
+         up to 3 long texts / byte strings (100..70 000 bytes, 2- and 3-byte length prefixes). Same oracle as the first \
+         part; encodings over 512 bytes: cut at the first/last 128 lengths, 128 spread lengths and around every picked \
+         mark; over 160 marks: the first/last 40 and 80 spread ones get the targeted corruptions. Non-trivial = value \
+         tree with >= 24 values or nesting >= 10",
+        wide_case,
+        ctx.pick(2_400, 60_000),
+        check_wide,
+    );
+    rep.explore(
         "arbitrary_bytes",
         "same schemas; input = arbitrary bytes (0..80) or a valid encoding with 1-3 overwritten bytes. Checked: no panic; \
          an accepted value matches the schema (independent conformance check: struct names/field sets, enum values in the \
@@ -708,6 +1235,14 @@ pub fn run(ctx: &Ctx) -> ! {
         byte_case,
         ctx.pick(120_000, 1_200_000),
         check_bytes,
+    );
+    rep.explore(
+        "wide_edited_bytes",
+        "schemas and values of the wide part; input = the valid encoding with 1-3 overwritten bytes. Checked as in \
+         arbitrary_bytes. Non-trivial = input accepted",
+        wide_byte_case,
+        ctx.pick(6_000, 120_000),
+        check_wide_bytes,
     );
     rep.finish()
 }
